@@ -49,6 +49,11 @@ def one(pid, k, src):
     try:
         os.makedirs(os.path.join(wt, "_seed", str(k)), exist_ok=True)
         shutil.copy(demo, os.path.join(wt, "_seed", str(k), "demo.py"))
+        # demos may refer to their own directory name (_seed2/<j>): provide it too
+        rel = os.path.relpath(os.path.dirname(demo), "/tmp/wt/%s" % pid)
+        if rel != os.path.join("_seed", str(k)):
+            os.makedirs(os.path.join(wt, rel), exist_ok=True)
+            shutil.copy(demo, os.path.join(wt, rel, "demo.py"))
         env = {"PYTHONPATH": wt, "MPLBACKEND": "Agg"}
         democmd = "%s _seed/%s/demo.py" % (PY, k)
         rc0, o0 = sh(democmd, cwd=wt, env=env, timeout=900)
@@ -104,10 +109,11 @@ def main():
     pids = sys.argv[1:] or sorted(os.path.basename(p) for p in glob.glob("/tmp/wt/C*"))
     jobs = []
     for pid in pids:
-        for src in sorted(glob.glob("/tmp/wt/%s/_seed/*" % pid)):
-            k = os.path.basename(src)
-            if k.isdigit():
-                jobs.append((pid, k, src))
+        for rnd, off in (("_seed", 0), ("_seed2", 3), ("_seed3", 6)):
+            for src in sorted(glob.glob("/tmp/wt/%s/%s/*" % (pid, rnd))):
+                k = os.path.basename(src)
+                if k.isdigit():
+                    jobs.append((pid, str(int(k) + off), src))
     with ThreadPoolExecutor(max_workers=3) as ex:
         for sid, msg in ex.map(lambda j: one(*j), jobs):
             print(sid, msg, flush=True)
